@@ -1,7 +1,8 @@
 (* C08 - rendered messages respect the size limit; truncation and padding are exact.
    Model: Model/MessageM.v (to_wire = Message.to_wire with Renderer).  Proofs: Proofs/MessageSize.v *)
 From DV Require Import Base.Prelude Model.NameM Model.MessageM.
-From DV Require Import Proofs.MessageRender Proofs.MessageSize Proofs.MessagePad.
+From DV Require Import Proofs.MessageRender Proofs.MessageSize Proofs.MessagePad Proofs.MessageTrunc.
+From DV Require Import Proofs.MessageRead Proofs.MessageRoundtrip Proofs.MessageRoundtrip2 Proofs.MessageTruncParse.
 Open Scope Z_scope.
 
 (* a rendered message never exceeds its effective limit (512 <= limit <= 65535 after the clamp) *)
@@ -34,6 +35,33 @@ Theorem no_offset_beyond_end : forall m origin max_size request_payload prefer_t
   Forall (fun kv => snd kv < zlen (out r)) (tbl r).
 Proof. exact table_inside_lemma. Qed.
 Print Assumptions no_offset_beyond_end.
+
+(* prefer_truncation (any message, origin, limit, padding, TSIG): the result is, octet for octet,
+   the complete rendering of the message cut to a prefix of its record sets in section order
+   (questions, then answers, ...: once a section is cut every later section is empty), whose TC
+   flag is set exactly when the cut lies before the additional section, and which still carries
+   the configured OPT and TSIG records (cut_msg keeps mopt and mtsig) *)
+Theorem trunc_prefix : forall m origin max_size request_payload pad w,
+  to_wire m origin max_size request_payload true pad = Ok w ->
+  exists q1 q2 a1 a2 u1 u2 d1 d2,
+    mq m = q1 ++ q2 /\ man m = a1 ++ a2 /\ mau m = u1 ++ u2 /\ mad m = d1 ++ d2 /\
+    (q2 <> [] -> a1 = [] /\ u1 = [] /\ d1 = []) /\ (a2 <> [] -> u1 = [] /\ d1 = []) /\ (u2 <> [] -> d1 = []) /\
+    to_wire (cut_msg m (if cut_before q2 a2 u2 then Z.lor (mflags m) fTC else mflags m) q1 a1 u1 d1)
+            origin max_size request_payload false pad = Ok w.
+Proof. exact trunc_prefix_lemma. Qed.
+Print Assumptions trunc_prefix.
+
+(* ... and it parses back to exactly that prefix message (well-formed ordinary message, no TSIG,
+   no origin, no padding - the hypotheses of C03's render_parse_partial) *)
+Theorem trunc_parses_partial : forall m max_size request_payload w,
+  WfMsg m -> mtsig m = None -> to_wire m None max_size request_payload true 0 = Ok w ->
+  exists q1 q2 a1 a2 u1 u2 d1 d2 m',
+    mq m = q1 ++ q2 /\ man m = a1 ++ a2 /\ mau m = u1 ++ u2 /\ mad m = d1 ++ d2 /\
+    (q2 <> [] -> a1 = [] /\ u1 = [] /\ d1 = []) /\ (a2 <> [] -> u1 = [] /\ d1 = []) /\ (u2 <> [] -> d1 = []) /\
+    from_wire w None po0 = Ok m' /\
+    msg_equiv m' (cut_msg m (if cut_before q2 a2 u2 then Z.lor (mflags m) fTC else mflags m) q1 a1 u1 d1).
+Proof. exact trunc_parses_lemma. Qed.
+Print Assumptions trunc_parses_partial.
 
 (* when padding is requested (and the message has an OPT record to carry it) the final length,
    TSIG included, is a multiple of the block size - for every message, origin, limit and key name
